@@ -719,6 +719,7 @@ func runC12(rep *mc.Reporter) {
 		idx++
 		return idx%nshards == shard && !budget.Expired()
 	}
+	var bufsOverride []int
 	decode := func(fam string, cmds [][]int, hb []int, pairs bool) {
 		if !mine() {
 			return
@@ -726,6 +727,9 @@ func runC12(rep *mc.Reporter) {
 		rep.Scenario()
 		s := c12Scn{Path: "decode", Fam: fam, Cmds: cmds, HB: hb}
 		bs := bufs
+		if bufsOverride != nil {
+			bs = bufsOverride
+		}
 		if s.hasLong() {
 			bs = []int{16, 4096, 65536} // 65536 = the size the tool's own pipes use
 		}
@@ -770,8 +774,22 @@ func runC12(rep *mc.Reporter) {
 		nPairSplit = len(f2)
 		f2 = append(f2, c12Commands(small, 3)[len(c12Commands(small, 2)):]...)
 	}
+	hasLong := func(c []int) bool {
+		for _, a := range c {
+			if a >= c12Big {
+				return true
+			}
+		}
+		return false
+	}
 	for i, a := range f2 {
 		for j, b := range f2 {
+			if i >= nPairSplit && j >= nPairSplit {
+				continue // a 3-argument command is paired with every <=2-argument command, not with another 3-argument one
+			}
+			if (hasLong(a) || hasLong(b)) && (i >= nPairSplit || j >= nPairSplit) {
+				continue // long arguments are paired with the <=2-argument commands only
+			}
 			for _, hb := range [][]int{{0, 0, 0}, {0, 1, 0}} {
 				decode("pair", [][]int{a, b}, hb, thorough && i < nPairSplit && j < nPairSplit)
 			}
@@ -791,9 +809,17 @@ func runC12(rep *mc.Reporter) {
 		for j, b := range f3 {
 			for k, c := range f3 {
 				shortOnes := i < 9 && j < 9 && k < 9
+				if !shortOnes && (hasLong(a) || hasLong(b) || hasLong(c)) {
+					continue // the long argument appears in triples of <=1-argument commands only
+				}
+				bufsOverride = nil
+				if !shortOnes {
+					bufsOverride = []int{16, 64} // triples beyond the quick family: two buffer sizes
+				}
 				for _, hb := range f3hb {
 					decode("triple", [][]int{a, b, c}, hb, thorough && shortOnes)
 				}
+				bufsOverride = nil
 			}
 		}
 	}
